@@ -10,7 +10,7 @@ pub(crate) mod verif_scr {
     use std::cell::Cell;
 
     pub(crate) const NROWS: usize = 12;
-    pub(crate) const CAP: usize = 48;
+    pub(crate) const CAP: usize = 24;
     /// a single write never spans more rows than this in the harnesses (else `ovf`)
     pub(crate) const MAXWRAP: usize = 4;
     pub(crate) const T_BLANK: u8 = 0; // never written / cleared
@@ -86,6 +86,48 @@ pub(crate) mod verif_scr {
                 self.tags[r].set(T_SPACE);
             }
         }
+        /// loop-free: the captured bytes are exactly `want[..n]` followed by blanks only (the right-edge filler)
+        pub(crate) fn cap_is(&self, want: &[u8; 16], n: usize) -> bool {
+            let m = self.cap_n.get();
+            if m < n {
+                return false;
+            }
+            let mut ok = true;
+            macro_rules! chk {
+                ($i:expr) => {
+                    if $i < n && $i < 16 {
+                        ok &= self.cap[$i].get() == want[if $i < 16 { $i } else { 0 }];
+                    } else if $i < m {
+                        ok &= self.cap[$i].get() == b' ';
+                    }
+                };
+            }
+            chk!(0);
+            chk!(1);
+            chk!(2);
+            chk!(3);
+            chk!(4);
+            chk!(5);
+            chk!(6);
+            chk!(7);
+            chk!(8);
+            chk!(9);
+            chk!(10);
+            chk!(11);
+            chk!(12);
+            chk!(13);
+            chk!(14);
+            chk!(15);
+            chk!(16);
+            chk!(17);
+            chk!(18);
+            chk!(19);
+            chk!(20);
+            chk!(21);
+            chk!(22);
+            chk!(23);
+            ok
+        }
         pub(crate) fn tag(&self, r: usize) -> u8 {
             self.tags[r].get()
         }
@@ -113,17 +155,40 @@ pub(crate) mod verif_scr {
                 return;
             }
             if self.capture.get() {
-                let mut i = 0;
-                while i < n {
-                    if b[i] == b'\t' {
-                        self.tab.set(true);
-                    }
-                    let k = self.cap_n.get();
-                    if k < CAP {
-                        self.cap[k].set(b[i]);
-                        self.cap_n.set(k + 1);
-                    }
-                    i += 1;
+                // loop-free capture of up to 16 bytes per write (unwinding a loop here would multiply the cost of
+                // every other loop in the harness, because Kani has one unwind bound per harness)
+                macro_rules! cap1 {
+                    ($i:expr) => {
+                        if $i < n {
+                            if b[$i] == b'\t' {
+                                self.tab.set(true);
+                            }
+                            let k = self.cap_n.get();
+                            if k < CAP {
+                                self.cap[k].set(b[$i]);
+                                self.cap_n.set(k + 1);
+                            }
+                        }
+                    };
+                }
+                cap1!(0);
+                cap1!(1);
+                cap1!(2);
+                cap1!(3);
+                cap1!(4);
+                cap1!(5);
+                cap1!(6);
+                cap1!(7);
+                cap1!(8);
+                cap1!(9);
+                cap1!(10);
+                cap1!(11);
+                cap1!(12);
+                cap1!(13);
+                cap1!(14);
+                cap1!(15);
+                if n > 16 {
+                    self.ovf.set(true);
                 }
             }
             let tag = b[0];
@@ -276,5 +341,70 @@ pub(crate) mod verif_scr {
     /// term_like target (no rate limiter) over the abstract screen
     pub(crate) fn scr_target(scr: &'static Scr) -> ProgressDrawTarget {
         ProgressDrawTarget::term_like(Box::new(ScrHandle(scr)))
+    }
+
+    /// term_like target whose rate limiter is in an arbitrary given state (used to start from an EXHAUSTED limiter)
+    pub(crate) fn scr_target_limited(scr: &'static Scr, rate: u8, capacity: u8, prev: Instant, last: usize) -> ProgressDrawTarget {
+        let mut rl = RateLimiter::new(rate);
+        rl.capacity = capacity;
+        rl.prev = prev;
+        ProgressDrawTarget {
+            kind: TargetKind::TermLike {
+                inner: Box::new(ScrHandle(scr)),
+                last_line_count: VisualLines::from(last),
+                rate_limiter: Some(rl),
+                draw_state: DrawState::default(),
+            },
+        }
+    }
+
+    /// rows currently accounted to the target (last_line_count)
+    pub(crate) fn target_last(t: &ProgressDrawTarget) -> usize {
+        match &t.kind {
+            TargetKind::TermLike { last_line_count, .. } => last_line_count.as_usize(),
+            TargetKind::Term { last_line_count, .. } => last_line_count.as_usize(),
+            _ => 0,
+        }
+    }
+
+    /// Put the screen into the state "log rows above, a previous frame of `b` rows ending at the cursor row `r0`"
+    pub(crate) fn scr_with_frame(scr: &Scr, r0: usize, b: usize) {
+        let fs = r0 + 1 - b;
+        let mut i = 0;
+        while i < NROWS {
+            if i < fs {
+                scr.tags[i].set(T_LOG);
+            } else if i <= r0 {
+                scr.tags[i].set(T_OLD);
+            }
+            i += 1;
+        }
+        if b > 0 {
+            scr.row.set(r0);
+            scr.col.set(scr.w);
+            scr.maxrow.set(r0);
+        } else {
+            scr.row.set(r0 + 1);
+            scr.col.set(0);
+            scr.maxrow.set(r0 + 1);
+        }
+    }
+
+    /// the lines last handed to draw_to_term by a Term/TermLike target (kept in its DrawState)
+    pub(crate) fn target_lines(t: &ProgressDrawTarget) -> &Vec<LineType> {
+        match &t.kind {
+            TargetKind::TermLike { draw_state, .. } => &draw_state.lines,
+            TargetKind::Term { draw_state, .. } => &draw_state.lines,
+            _ => panic!("verif: target has no draw state"),
+        }
+    }
+
+    /// 0 = Text, 1 = Bar, 2 = Empty
+    pub(crate) fn line_kind(l: &LineType) -> u8 {
+        match l {
+            LineType::Text(_) => 0,
+            LineType::Bar(_) => 1,
+            LineType::Empty => 2,
+        }
     }
 }
